@@ -179,3 +179,43 @@ type Delivery struct {
 
 // Key identifies name+tags.
 func (d *Delivery) Key() string { return idKey(d.Name, d.Tags) }
+
+// leftAtClose is what the record of a Close carries: the library goroutines
+// that were alive at the instant the Close returned. The simulator records what
+// each of them goes on to do (simrt.WatchEpilogue).
+type leftAtClose struct {
+	tasks []*simrt.Task
+	from  []int
+}
+
+func (env *Env) watchLeft(ts []*simrt.Task) *leftAtClose {
+	return &leftAtClose{tasks: ts, from: env.Sim.WatchEpilogue(ts)}
+}
+
+// stillAtWork describes the goroutines that had not finished their work when
+// the Close returned. "Ended" cannot mean that the goroutine no longer exists
+// at that very instant - a goroutine that announces its end with a deferred
+// wg.Done(), or that closes a channel and then releases a mutex, always exists
+// for a few instructions longer than the Close that waited for it. It means
+// that the goroutine has nothing left to do but let go: a goroutine that, from
+// the instant Close returned, only releases locks, touches atomics, returns
+// pooled objects or closes channels and then returns by itself has ended;
+// one that goes on to take a lock, to send, receive or select on a channel, to
+// wait, or to use a socket, or that never returns, has not.
+func (l *leftAtClose) stillAtWork() []string {
+	var out []string
+	for i, t := range l.tasks {
+		ops, ended := t.Epilogue(l.from[i])
+		where := t.Site
+		if where == "" {
+			where = t.Name
+		}
+		switch {
+		case !ended:
+			out = append(out, fmt.Sprintf("the goroutine started at %s was alive when Close returned (at: %v) and never ended", where, ops))
+		case !simrt.OnlyReleases(ops):
+			out = append(out, fmt.Sprintf("the goroutine started at %s was still at work when Close returned: from then on it performed %v", where, ops))
+		}
+	}
+	return out
+}
